@@ -10,6 +10,7 @@ import (
 	"math"
 	"net/http"
 	"path"
+	"reflect"
 	"strconv"
 	"strings"
 	"sync"
@@ -291,6 +292,9 @@ func handleMethod(svr interface{}, serviceName string, desc *grpc.MethodDesc, un
 		resp, err := desc.Handler(svr, grpc.NewContextWithServerTransportStream(ctx, &sts), dec, unaryInt)
 		toHeaders(sts.GetHeaders(), w.Header(), "")
 		toHeaders(sts.GetTrailers(), w.Header(), "X-GRPC-Trailer-")
+		if err == nil && isNil(resp) {
+			err = status.Error(codes.Internal, "handler returned neither error nor response message")
+		}
 		if err != nil {
 			st, _ := status.FromError(internal.TranslateContextError(err))
 			if st.Code() == codes.OK {
@@ -408,6 +412,16 @@ func handleStream(svr interface{}, serviceName string, desc *grpc.StreamDesc, st
 
 		writeProtoMessage(w, codec, &tr, true)
 	}
+}
+
+// isNil reports whether the given response is absent: nil, or (what a
+// generated handler returns) a typed nil pointer.
+func isNil(m interface{}) bool {
+	if m == nil {
+		return true
+	}
+	rv := reflect.ValueOf(m)
+	return rv.Kind() == reflect.Ptr && rv.IsNil()
 }
 
 func peerFromRequest(r *http.Request) *peer.Peer {
